@@ -9,6 +9,7 @@ import (
 
 	"google.golang.org/grpc"
 	"google.golang.org/grpc/codes"
+	"google.golang.org/grpc/metadata"
 	"google.golang.org/grpc/status"
 
 	"github.com/avos-io/goat/vh/env"
@@ -40,7 +41,37 @@ func hBurstThenBlock(m int) func(*env.Rec, grpc.ServerStream) error {
 	}
 }
 
+// hMdSendUntilErr: sets response metadata, sends n messages, gives up at the first failing send.
+func hMdSendUntilErr(n int) func(*env.Rec, grpc.ServerStream) error {
+	return func(r *env.Rec, ss grpc.ServerStream) error {
+		ss.SetHeader(metadata.MD{"resp-md": {"v"}})
+		ss.SetTrailer(metadata.MD{"resp-trailer": {"t"}})
+		if _, err := recvOne(r, ss); err != nil && err != io.EOF {
+			return err
+		}
+		for i := 0; i < n; i++ {
+			if err := ss.SendMsg(env.S(fmt.Sprintf("b%d", i))); err != nil {
+				r.HSendErr = err
+				return status.Error(codes.Aborted, "send failed: "+err.Error())
+			}
+			r.HSent = append(r.HSent, fmt.Sprintf("b%d", i))
+		}
+		return nil
+	}
+}
+
+func recvOne(r *env.Rec, ss grpc.ServerStream) (string, error) {
+	m := new(env.Msg)
+	if err := ss.RecvMsg(m); err != nil {
+		r.HRecvErr = err
+		return "", err
+	}
+	r.HRecv = append(r.HRecv, string(m.Value))
+	return string(m.Value), nil
+}
+
 var c07Progs = []c07Prog{
+	{"mdburst", "SStream", "SCRRR", func(int) func(*env.Rec, grpc.ServerStream) error { return hMdSendUntilErr(3) }, 7},
 	{"pingpong", "Bidi", "SRSRCR", func(int) func(*env.Rec, grpc.ServerStream) error { return env.HEcho }, 7},
 	{"sendall", "Bidi", "SSCRRR", func(int) func(*env.Rec, grpc.ServerStream) error { return env.HEcho }, 7},
 	{"sstream", "SStream", "SCRRR", func(int) func(*env.Rec, grpc.ServerStream) error { return env.HBurst(2) }, 6},
@@ -69,6 +100,7 @@ func c07(tier string) []*explore.Scenario {
 				out = append(out, c07Cancel(p, k, 64, 1, bound))
 				// a transport that, like goat's channel transport, lets a done context merely compete with the queue
 				out = append(out, c07CancelT(p, k, 64, 0, bound, true))
+				out = append(out, c07CancelD(p, k, 64, 0, bound, false, true))
 			}
 		}
 	}
@@ -200,9 +232,15 @@ func c07Cancel(p c07Prog, k, capn, others, bound int) *explore.Scenario {
 }
 
 func c07CancelT(p c07Prog, k, capn, others, bound int, ctxRace bool) *explore.Scenario {
+	return c07CancelD(p, k, capn, others, bound, ctxRace, false)
+}
+
+// withDeadline: the caller's context also has a (far) deadline, so the call carries a timeout header;
+// the explicit cancel must still reach the handler at once (no clock advance).
+func c07CancelD(p c07Prog, k, capn, others, bound int, ctxRace, withDeadline bool) *explore.Scenario {
 	fam := "C07/cancel"
 	return &explore.Scenario{
-		Name:   fmt.Sprintf("C07/cancel/%s/at=%d/cap=%d/others=%d/ctxrace=%v", p.name, k, capn, others, ctxRace),
+		Name:   fmt.Sprintf("C07/cancel/%s/at=%d/cap=%d/others=%d/ctxrace=%v/deadline=%v", p.name, k, capn, others, ctxRace, withDeadline),
 		Family: fam, Prop: "C07", Bound: bound,
 		Run: func() {
 			w := env.NewWorld()
@@ -218,6 +256,11 @@ func c07CancelT(p c07Prog, k, capn, others, bound int, ctxRace bool) *explore.Sc
 			r := w.Rec("s", p.kind)
 			w.Handlers["s"] = p.handler(0)
 			ctx, cancel := context.WithCancel(context.Background())
+			if withDeadline {
+				var c2 context.CancelFunc
+				ctx, c2 = context.WithTimeout(ctx, 20*time.Second)
+				defer c2()
+			}
 			cancelled, trailerBefore := false, false
 			var streamID uint64
 			doCancel := func() {
